@@ -38,6 +38,176 @@ CLAIMS = {
     note="Trusted: Lean kernel (axioms printed in evidence), harness AST→scope-tree dump and HIR walk, the generator's coverage of scope shapes. "
          "The typer's own scoping (LocalTypeEnv) is exercised only through the acceptance oracle.",
     technique="Lean 4 proof (structural induction over the nested AST) + differential correspondence with the Rust resolver"),
+ "C09": dict(
+    category="proof",
+    text="Lean theorems over Model/Anf.lean, a model of anf.rs (anf / anf_imm / anf_list / compile_match_arms_to_anf / anf_file in the same "
+         "continuation-passing shape, gensym counter threaded, including the && / || -> if lowering), stated against the shared big-step "
+         "semantics Sem (world = stdout, Ref store, spawned activations, extern events; failure carries the world at the failure point). "
+         "Proved for every expression of the Lift sub-language (all node kinds: variables, literals, unary/binary operators incl. the short-circuit "
+         "lowering, calls, dyn calls, tuples/arrays/constructors incl. the nullary-constructor tag, let, if, match with default, while, go, field and "
+         "tuple projections, to-dyn) that satisfies the decidable predicate InAnfFragment (no let-bound name of an operand is mentioned by another "
+         "operand of the same node; no handed-out temporary t<m> occurs in the expression): eval_fuel_monotone; anf_preserves_partial (in the "
+         "fuel-monotone form, both directions: whatever e evaluates to - value, stdout, store, spawned activations, failure and failure point - "
+         "anf e evaluates to, and conversely); anf_file_preserves_partial and anf_run_preserves_partial (the same for the whole file produced by "
+         "anf_file, i.e. Sem.run of the ANF file equals Sem.run of the Lift file under either go schedule); anf_preserves_outcome; anf_cont (for EVERY "
+         "expression and continuation, anf e k is the chain of operand bindings around k's result) with anf_chain_fwd / anf_chain_bwd; anf_is_anf "
+         "(every operand of the output is immediate, for every Lift expression); trace corollaries args_left_to_right_once, "
+         "items_left_to_right_once, only_selected_branch, only_selected_arm, short_circuit, while_recheck, while_exit, go_once. Non-vacuity: "
+         "decide-checked examples inside the fragment (effects in argument positions, a failing division between two prints, a short-circuited "
+         "print, a whole file) and two counter-examples outside it (a source variable spelled t0, a shadowing let) where anf changes the result. "
+         "Tie (L1, exact): on every run the model is applied to the REAL Lift dump of every function of the 82-program corpus, of G-prog programs "
+         "and of the effect-placement programs and must equal, node for node including temporary names, numbering and type annotations, both "
+         "the real anf_file output on a fresh Gensym and the pipeline's own ANF (counter offset recovered); the driver also evaluates InAnfFragment "
+         "/ FileInAnfFragment on every real function/file (all inside so far) and isA on every real ANF function. Oracle independent of the model: "
+         "an effect-placement generator (44 expression forms; a printing call, a print inside a branch block, a Ref update, a division by zero, an "
+         "out-of-range array_get or a failing callee in every operand / argument / branch / arm / condition / loop-body / discarded-let / unused-let / "
+         "go position; nested compositions) whose programs are compiled by the real pipeline; the real Core, Mono, Lift, ANF dumps run under Sem "
+         "and the real Go AST under Go.Sem, under both go schedules, and must agree with each other (first divergent stage reported) and with "
+         "the trace the generator itself computes for the source program (labels in evaluation order, final Ref value, failure point).",
+    design_ref="§5 C09, §C09 — as built",
+    note="Proved: the theorems above, about Model/Anf.lean and Sem. Caveat in the theorems: a source run that goes wrong (Fail.stuck = ill-typed IR) "
+         "is only required to be matched by some outcome (ANF names all operands before the operation, so it notices an ill-typed operand later); "
+         "well-typedness of the IR is C03's. Validated only: that the model equals anf.rs (exact tie on every real function, every run); the statement "
+         "lowering of go/compile.rs (compile_aexpr*, compile_while, compile_go) and go/dce.rs - covered by the stage-wise oracle on the Go stage, "
+         "dce.rs is modelled and proved by worker dce; real goroutine interleavings (the semantics offers two schedules: run the activation at "
+         "the spawn / never before the spawner ends). Two small refinements of Sem.lean were needed and agreed: a tag evaluates to the enum value "
+         "of its type, and && / || with a non-boolean left operand get stuck before the right operand is evaluated. Found and fixed: dead-code "
+         "elimination dropped a dead division by zero (known_findings.json, fix commit by worker dce). Trusted: Lean kernel, Sem/Go.Sem, dump "
+         "serialisers, the generator's own trace computation.",
+    technique="Lean 4 proof (CPS-to-direct-style decomposition anf_eq_dec; forward and backward simulation by mutual structural recursion over "
+              "the nested expression type with fuel induction for while and for the whole-file lift) + exact differential correspondence with "
+              "anf.rs + effect-placement generator with stage-wise evaluation under Sem / Go.Sem"),
+ "C06": dict(
+    category="proof",
+    text="Lean theorems over a model of compile_match.rs (move_variable_patterns, branch_variable with its last-maximum rule, the row "
+         "distribution of the unit/bool/int/string/enum/struct/tuple cases, gensym threading, compile_rows with fuel), quantified over ALL "
+         "pattern matrices the compiler accepts (wildcards, variables, unit/bool/integer/string literals, tuples, structs, enum constructors incl. "
+         "generic enums, any nesting, any number of rows and columns), all arm bodies (a type parameter) and all scrutinee values of the right "
+         "shape: compileRows_correct (running the compiled tree reaches exactly the body of the first row all of whose patterns match, in the "
+         "environment extended by generated temporaries and exactly that row's bindings; no row matches => the `missing` failure), "
+         "no_other_arm_runs, no_match_fails, bindings_correct (every pattern variable is bound to the component matchPat assigns it; all other "
+         "non-generated names unchanged), compileRows_correct_sem + toExpr_sem (the same statement for Sem.eval on the Core expression, with exact "
+         "fuel accounting), scrutinee_once / scrutinee_var, int_nonexhaustive_rejected, compileRows_total (fuel above the pattern-size measure "
+         "never runs out: every sub-matrix is strictly smaller), compileRows_counter, realGen_injective / realGen_ne (discharge the gensym "
+         "hypotheses for the compiler's x{n}). Tied to the Rust on every run (L1): every match / destructuring let of the real typed AST of the "
+         "corpus, of exhaustively enumerated / sampled small matrices and of generated programs with nested patterns is compiled by the REAL "
+         "compile_match::compile_file (marker bodies) and the model's Core must equal the real Core up to bound names. Independent oracle: the "
+         "real Core runs under Sem on every value of the scrutinee type up to depth 3 and must behave like firstMatch on the source patterns.",
+    design_ref="§5 C06, 'C06 — as built'",
+    note="Proved about the model; that the model equals compile_match.rs is validated differentially (L1), not proved. Hypotheses of the main "
+         "theorem: gensym injective and fresh (proved for x{n} vs names not starting with x), values of the scrutinee's shape (`conf`, evaluated "
+         "on every generated value), no pattern variable spelled like a column variable (`leavesOK`, decidable on the output, evaluated on every "
+         "real tree). Float patterns and matches on Vec/Ref/dyn panic in the compiler (C04); `missing` at a non-unit Go type is C02's finding; the "
+         "ANF/Go lowering of the tree is covered by C01's stage-wise oracle, not here. Trusted: Lean kernel, Sem as the meaning of Core, "
+         "harness TAST walk and dumps, the driver's alpha-equivalence and value enumeration.",
+    technique="Lean 4 proof (induction over fuel / rows / patterns) + differential correspondence with the real match compiler + first-match oracle on the real Core"),
+ "C10": dict(
+    category="proof",
+    text="Lean theorems over a model of the integer-literal pipeline and of the operator mapping, quantified over the tables regenerated from the "
+         "sources on every run (Gen/OpMap, Gen/NumTypes, Gen/ToString). Proved for all digit strings, all widths, both signednesses, all operand "
+         "values: lit_accept_iff (a literal is accepted iff its written value is in the type's range, on both Rust parser paths), lit_accept_value / "
+         "lit_value (the value rebuilt by tast_builder, printed with to_string and read back by Go at the declared type - octal rule and "
+         "representability included - is the written number), lit_reject_kind, opmap_faithful_bin / opmap_faithful_un (the Go operator selected by "
+         "compile.rs and spelled by go_pprint.rs, on two's-complement words of any sized integer type, denotes the source operator's meaning on "
+         "mathematical integers: wrap modulo 2^N, truncated division incl. minInt / -1, division-by-zero failure, signed/unsigned ordering), the "
+         "spec-pinning lemmas wrap_mod, wrap_signed_range, div_trunc, div_min_neg_one, div_zero_panics, cmp_signed, cmp_unsigned, to_string_int "
+         "(%d rendering reads back), and decide-theorems over the generated tables (num_types_consistent, lit_forms_consistent, pat_forms_consistent, "
+         "opmap_total, opmap_symbols_agree, to_string_covers, to_string_verbs_ok). Tied to the Rust by the translator and by a correspondence run "
+         "through the real pipeline: every 8-bit literal, all boundaries of the 8 integer types in every suffix form, random wide values, literal "
+         "patterns, one program per operator x type x operand shape (real Core EPrim, real goast nodes and printed text must equal the model's "
+         "prediction), plus Rust's own str::parse / to_string / wrapping_* against the model. An independent oracle evaluates every emitted operator "
+         "on all 8-bit operand pairs (boundary+random pairs for wider types) against the source meaning, with Go's constant-expression rules.",
+    design_ref="§5 C10",
+    note="Floats are validated, not proved: literal -> Core bits against an independent correctly-rounded decimal->binary conversion and Rust's parse, "
+         "printed Go literal read back, operator symbol and operand Go types; float32 'rounds every operation to single precision' rests on Go. "
+         "Trusted: Lean kernel; the reading of the Go specification in goBinInt/goConstBin/goIntToken; tools/extract.py regexes; harness program templates. "
+         "Known findings: operators on all-literal operands become Go constant expressions (overflow / zero divisor rejected by the Go compiler).",
+    technique="Lean 4 proof (induction over digit strings; BitVec/Int lemmas; decide over regenerated tables) + translator + differential correspondence + spec oracle"),
+ "C11": dict(
+    category="proof",
+    text="Lean theorems over a model of the Pratt loop (expr_bp/atom/arg_list, with the binding-power tables regenerated from "
+         "crates/parser/src/expr.rs on every run) and of lower_expr_with_args/apply_trailing_args: bp_levels (the table realises the "
+         "documented order prefix > * / > + - > comparisons > equality > && > ||, every infix l < r; it also states that the call power is "
+         "below the prefix power, which is why lowering has to re-associate); parse_print_cst (for EVERY tree the model parser turns the "
+         "minimal-parentheses printing into the CST described by the tree's spine); parse_print (for every well-formed tree over "
+         "identifiers and integer literals with all 12 binary operators, both prefix operators, calls of any arity, field access and tuple "
+         "projection: parse (printMin t) = t; well-formed only excludes an integer literal as receiver of a postfix operation, witnessed by "
+         "literal_receiver_rejected); left_assoc; string literals: escape_accepted / decode_escape (every string has a spelling the lexer "
+         "regex accepts and lowering decodes it back), decode_plain, escape_table, multiline_fidelity. Tied to the Rust by a differential "
+         "run: ~29 000 trees (all operator pairs and triples exhaustively, random larger trees, trees with redundant parentheses) are printed "
+         "by the model, rendered with canonical blanks / random trivia and comments / glued, parsed by the real parse_ast_file, and the dumped "
+         "ast::Expr must equal both the original tree (property oracle) and the model's parse (tie); ~390 literal spellings (every integer "
+         "suffix, floats, every escape, multi-line strings) are compiled by the whole pipeline and the EPrim reaching Core must be the denoted "
+         "value (oracle) and equal the model's decoding (tie).",
+    design_ref="§5 C11, §C11 — as built",
+    note="Proved: the theorems above about the Lean model. Validated only (differential, not proved): that the model equals the Rust parser "
+         "and lowering; integer/float literal values (no Lean theorem: the value is computed by Rust's str::parse, the harness compares with "
+         "an independently computed expectation); items, patterns and types are not in the tree generator (operator expressions only). "
+         "Trusted: Lean kernel, tools/extract.py regexes, harness AST dump and trivia insertion, the real lexer (C12) for token boundaries.",
+    technique="Lean 4 proof (structural induction over trees via a spine decomposition of the Pratt CST) + translator for the "
+              "binding-power table + differential correspondence with parse_ast_file and the whole pipeline"),
+ "C12": dict(
+    category="proof",
+    text="Lean theorems over (i) a model of the lexer whose rule tables (65 #[token] literals, 17 #[regex] patterns as a regex AST, "
+         "priorities, callback, trivia kinds, both kind enums) are regenerated from lexer/src/lib.rs and parser/src/syntax.rs on every run, "
+         "and (ii) a model of Parser::build_tree with rowan's GreenNodeBuilder. Proved for every rule table, every text and every positive "
+         "error-token length: the token loop ends without stall or invalid bump and the token texts concatenate to the input with no empty "
+         "token (lex_tiles), byte ranges are contiguous and end on char boundaries (lex_ranges_tile), the byte count the hand-written "
+         "multi-line-string scanner bumps by is a char boundary of the UTF-8 text (multiline_boundaries, scanner modelled over bytes), every "
+         "non-error token is a longest match of the declarative regex/literal semantics and error tokens occur only where no rule matches or a "
+         "callback rejected (valid_tokens_maximal, error_only_without_match; derivative matcher proved correct). Proved for every event list that "
+         "is balanced and has one Advance per non-trivia token: build_tree succeeds and the leaves of the tree are exactly the tokens in order "
+         "with nothing dropped (buildTree_lossless); for every event list all Error-event ranges lie in the text (diag_ranges_in_text); node "
+         "ranges lie in the text (node_ranges_in_text); TokenKind and MySyntaxKind discriminants agree on all lexer kinds (kinds_aligned, decided "
+         "on the regenerated tables). Composition parse_lossless_partial. Tied to the Rust by (a) lexAll fed the real error lengths must equal "
+         "lexer::lex on every input and (b) buildTree fed the REAL event list and tokens must equal the real green tree and diagnostic ranges; "
+         "every real event list is checked to satisfy the theorem's hypotheses. Direct oracles on the implementation for every input: tiling, "
+         "char boundaries, tree text == input, leaves == tokens with same-named kinds, node/diagnostic/lowering-diagnostic ranges in the text, "
+         "line:column rendering exact, parse twice identical, no panic, no hang, deep nesting in child processes.",
+    design_ref="§5 C12, §C12 — as built",
+    note="Only validated, not proved: that logos' generated automaton is 'longest match, then priority' (L1 tie on exhaustive strings <=3 over 34 symbols, "
+         "<=4..8 over smaller alphabets, corpus, mutants, random); that file::file's event list is balanced with enough Advances (checked on every real "
+         "event list, owned by C04); determinism (parse twice). Trusted: Lean kernel, extract.py's regex-subset parser, harness serialisation, "
+         "rowan/logos as observed. Known finding: stack overflow (abort, no tree) at ~10^5 nested '(' or '!'.",
+    technique="Lean 4 proof (induction over token loop / event list, Brzozowski-derivative correctness, UTF-8 arithmetic) + table translator + "
+              "differential correspondence with lexer::lex and Parser::build_tree + exhaustive small-string search"),
+ "C13": dict(
+    category="proof",
+    text="Lean theorems over a model of discover_packages / topo_sort_packages / package-id assignment / concatenation order in which every "
+         "iteration over a set of package names is a parameter: plan_enum_invariant (for all package layouts and all pairs of enumerations of "
+         "every import set and of the package map's keys: same discovered packages in the same order, same ids, same type-check order, same "
+         "concatenation order, or the same error), discover_enum_invariant, topo_enum_invariant, ids_enum_invariant, link_enum_invariant, "
+         "ids_injective, discover_mem_iff_reach, discover_fuel_suffices; for the code before the fix (HashSet) the counter-examples "
+         "hash_discovery_order_varies / hash_reported_error_varies and hash_only_link_order_varies. imports_ordered re-checks on every run "
+         "that PackageUnit.imports is an ordered set (table regenerated from packages.rs). Tie: the real discover_packages + "
+         "topo_sort_packages (+ ids of a whole compile) on generated package directories and on raw graphs (all 3-package graphs) equal "
+         "the model's output. Everything after discovery (typer, passes, printers, artefact hashes) is NOT modelled: it is covered by the "
+         "differential oracle only — K-fold recompilation in one process (fresh hash keys, permuted directory creation) and in child "
+         "processes, comparing Go text, every stage dump, diagnostics, interface/core bytes and hashes, link results byte for byte.",
+    design_ref="§5 C13, §C13 — as built",
+    note="Trusted: Lean kernel; tools/extract.py gen_package_ids; error-message classification and the project generator in harness/src/c13.rs; "
+         "SipHash-128 digests for the cross-process comparison; String order in Rust = Lean. tools/hashiter.py (source scan of HashMap/HashSet "
+         "iterations, heuristic) is auxiliary. Three defects found and fixed (known_findings.json).",
+    technique="Lean 4 proof (sorted-set uniqueness, DFS invariants) + differential correspondence + K-fold / cross-process byte comparison"),
+ "C16": dict(
+    category="proof",
+    text="Lean theorems over a model of the isolation and coherence decision logic: package_allowed_iff and visible_iff (a qualified path "
+         "P::x resolves from a file of Q iff P = Q or P = Builtin or P is imported by that file, given the item exists), invisible_unresolved, "
+         "not_imported_reported, use_accepted_visible (no reference form is accepted unless its target package is visible), "
+         "accepted_package_isolated (impls name visible packages only and obey the orphan rule), topo_ok_iff_acyclic / topo_order_correct / "
+         "topo_error_truthful (the DFS of topo_sort_packages succeeds iff the import graph is acyclic and complete; its order is a permutation "
+         "with every import earlier; its cycle / missing errors are true), cycle_missing_reported (type checking is reached only if every "
+         "reachable package directory exists and declares its own name and there is no cycle), coherent (accepted implies at most one impl per "
+         "(trait, type)), order_independent (acceptance is invariant under any permutation of the type-check/merge order), enum_independent, "
+         "merge_check_redundant (orphan rule + visibility + acyclicity already exclude cross-package duplicates). Tie: generated worlds "
+         "(layouts with cycles, diamonds, missing, misdeclared, inconsistent directories x placements of 8 reference forms and of impls by "
+         "trait owner x type owner, in files with and without imports) compiled by the real pipeline::compile; accept/reject, graph error and "
+         "set of diagnostic classes must equal the model's; a declarative oracle (package-level, from the property text) demands rejection "
+         "independently of the model; three permuted copies per world must agree.",
+    design_ref="§5 C16, §C16 — as built",
+    note="Trusted: Lean kernel; source templates, message classification in harness/src/c16.rs; the declarative oracle in tools/props/c16.py. "
+         "The typer's inference and trait-method dispatch are not modelled: a use is a reference form to a standard item. No defect found.",
+    technique="Lean 4 proof (decision logic, DFS correctness, fold invariants) + differential correspondence on generated package worlds"),
  "C15": dict(
     category="proof",
     text="Lean theorems over a state machine of the artefact protocol (sources, .interface and .core files, ops edit/check/build/link/"
@@ -70,6 +240,66 @@ CLAIMS = {
          "result over the explored texts only. Known findings: hover on shorthand struct fields/binders and on dyn-coerced variables; `::` completions "
          "in an impl header.",
     technique="Lean 4 proof of the position logic + differential tie + crash/hang search (fault enumeration) + hover/completion differential against the compiler"),
+ "C17": dict(
+    category="proof",
+    text="Lean theorems over a transcription of the four places that name a method's function (definition site and static site in "
+         "compile_match.rs, ETraitCall resolution in mono.rs, vtable wrapper in go/compile.rs, the latter after mono's type-collapsing phase): "
+         "call_forms_static_bounded_agree (for every trait, method, substitution and receiver type the bounded-generic form names the function "
+         "the impl was compiled to, as the static form does), call_forms_agree (additionally the dyn wrapper calls exactly the Go function of "
+         "that definition, for every receiver type without generic applications), inherent_forms_agree, inherent_generic_lookup, "
+         "dyn_requires_impl / no_impl_no_dyn (decision model of coerce_to_expected_dyn), hasVisible_iff. Tied to the Rust by generated programs "
+         "(receiver types x trait/method names, every applicable call form in one program): callee names read off the real Core/Mono/Lift dumps "
+         "and the real goast must equal the model's at every site, and - model-free - the static call, the instance of the bounded function and "
+         "the vtable wrapper must reach one declared Go function; ill-formed programs (dyn without impl, unsatisfied bound, duplicate or "
+         "ambiguous methods) must be rejected.",
+    design_ref="§5 C17, 'C17 — as built'",
+    note="'Same code runs' is identity of the Go function reached; equality of results additionally needs C07/C09 (no Go toolchain to execute). "
+         "For receivers that are instances of generic types the dyn form is proved NOT to agree (dyn_generic_instance_mismatch) - known finding; "
+         "trait bounds are not checked at calls of generic functions - known finding. Single-package programs only; the 16 source anchors of the "
+         "naming sites are re-checked textually on every run (Gen/Dispatch.lean). Trusted: Lean kernel, harness dump scraping, goscope.rs.",
+    technique="Lean 4 proof (unfolding + structural induction on types) + differential correspondence at every naming site of the real pipeline"),
+ "C19": dict(
+    category="proof",
+    text="Lean theorems over a transcription of every name encoder (go_ident, encode_ty, go_type_name_for, ty_compact, trait/inherent method "
+         "names, spec_name_for, instance type names, closure env/apply names, variant struct names, dyn/ref/array helper names, local renaming, "
+         "gensym) with keyword list, escape cases, primitive spellings, runtime helper names and gensym prefixes regenerated from the Rust text: "
+         "goIdent_legal (for EVERY string the result is a legal Go identifier and no keyword; keywords_cover_spec: the table contains the 25 "
+         "keywords of the Go spec), goIdent_injective_on_source_idents, local_vs_temp_disjoint / goLocal_ne_goTemp (a renamed local hint__idx is "
+         "never a temporary prefix++counter, for every gensym prefix in the crate), local_rename_injective, gensym_injective, "
+         "traitImplFnName_injective_partial (#-free components), goTypeNameFor_injective_partial (prims, structs with _-free names, tuples, Vec, "
+         "arrays at any nesting), variant_eq_type_only_if_qualified_partial. The full-strength injectivity statements are FALSE and refuted by "
+         "examples, each replayed on the real encoders and the real pipeline. Tie: exhaustive model-vs-real diff of the seven public encoders "
+         "(all identifiers up to length 4 over {a _ 0 T # / : é}, types exhaustively to depth 2 and sampled to depth 4) plus whole-program name "
+         "predictions; oracle on the real goast::File: one declaration per name and scope, legal identifiers, every reference resolves to the "
+         "entity meant, resolution shape invariant under renaming a user identifier, over templates x an adversarial dictionary.",
+    design_ref="§5 C19, 'C19 — as built'",
+    note="PARTIAL: uniqueness is proved only on the stated fragments; 26 collision classes reachable from source programs are known findings "
+         "(user names equal to runtime helpers / main0 / fmt / temporaries / predeclared len, any; `_` and `#` merged by go_ident; tuple-nesting "
+         "and lower-casing in encode_ty/ref_struct_name; instance names vs user names). Behavioural rename-invariance is checked syntactically "
+         "(alpha-shape of the Go file), not under a Go semantics. Trusted: Lean kernel, extract.py, goscope.rs scope rules, generator templates.",
+    technique="Lean 4 proof (all strings / all types) + translator-regenerated tables + exhaustive encoder diff + scope oracle on real output"),
+ "C01": dict(
+    category="translation_validation",
+    text="Per-program translation validation against formal semantics written in Lean: Sem (source-level meaning of the unified IR: "
+         "call-by-value, left-to-right, first-match, short-circuit, wrapping fixed-width integers, Ref store, traces) and Go.Sem (the "
+         "emitted Go subset). For every accepted corpus and generated program the REAL Core, Mono, Lift and ANF dumps are run under Sem "
+         "and the REAL Go AST under Go.Sem; stdout and the way the run ends must agree stage by stage (the first divergent stage names "
+         "the guilty pass) and with the outputs recorded from real Go. The pass-level preservation theorems live under C06-C10; this check "
+         "is the glue between them and the code.",
+    design_ref="§5 C01",
+    note="Trusted: Sem/Go.Sem as definitions (Go.Sem reproduces all recorded corpus outputs), harness IR serialisers, the generator's coverage. "
+         "Not covered: go_pprint.rs (AST is dumped before printing), real goroutine interleavings, Go's float formatting.",
+    technique="translation validation with Lean-defined executable semantics (Sem vs Go.Sem) on real stage dumps"),
+ "C02": dict(
+    category="translation_validation",
+    text="Go.Check, a Lean checker for the rules go build/go vet enforce on the emitted subset (declared once and before use, typed "
+         "assignment/call/return/composite literal, interface satisfaction, unused locals and imports, terminating statements, legal "
+         "identifiers), applied to the REAL Go AST of every accepted corpus and generated program. goIdent_legal (C19) proves identifier "
+         "legality for all strings. Known findings: closures in func-typed positions, missing() at a non-unit type.",
+    design_ref="§5 C02",
+    note="Trusted: Go.Check as our reading of the Go spec (accepts the 73 corpus programs real Go accepted, rejects 058 as real Go did); "
+         "goast dump; go_pprint.rs not covered.",
+    technique="translation validation with a Lean-defined Go type/scope checker on the real Go AST"),
 }
 
 NOT_YET = "not claimed yet: the model/theorems/tie for this property are still being built (see DESIGN.md §5)"
